@@ -19,7 +19,7 @@ Proof. unfold label_eq, label_eq_ignores_case. apply eq_ci_spec. Qed.
 (* one step of the iterator on a stored label *)
 Lemma sli_loop_label fuel m p sseg l :
   valid_label l -> bytes_at m p (mlen l :: l) ->
-  sli_loop (S fuel) m p sseg = SliLabel l (Some (p + mlen l + 1, sseg)).
+  sli_loop (S fuel) m (mlen m) p sseg = SliLabel l (Some (p + mlen l + 1, sseg)).
 Proof.
   intros [Hl Hw] Hb. cbn [sli_loop].
   pose proof Hb as Hb0. apply bytes_at_cons in Hb0 as [Hg Hb1]. rewrite Hg.
@@ -34,12 +34,12 @@ Qed.
 (* a match against a completely stored name *)
 Lemma sli_sound m (ok : N -> Prop) seg p ls e :
   NameIn m ok seg p ls e -> forall sseg a, seg <= sseg ->
-  labels_eq_sli a m (Some (p, sseg)) = Some true ->
+  labels_eq_sli a m (mlen m) (Some (p, sseg)) = Some true ->
   exists q, a = q ++ [[]] /\ canon q = canon ls.
 Proof.
   intros H. induction H as [seg p Ho Hg | seg p l ls e Hv Ho Hb _ IH | seg p q l ls e' Ho0 Ho1 Hg0 Hg1 Hq Hs Hq2 Hv Ho Hb Hn IH];
     intros sseg a Hss HE.
-  - assert (SN : sli_next m (Some (p, sseg)) = SliLabel [] None).
+  - assert (SN : sli_next m (mlen m) (Some (p, sseg)) = SliLabel [] None).
     { unfold sli_next. pose proof (get_some_lt _ _ _ Hg) as X.
       destruct (N.leb_spec (PName.mlen m) p); [lia|]. cbn [sli_loop]. rewrite Hg. cbn [N.leb N.compare].
       destruct (N.ltb_spec (PName.mlen m) (p + 0 + 1)); [lia|]. cbn [N.eqb].
@@ -49,7 +49,7 @@ Proof.
     unfold label_eq, label_eq_ignores_case in EX. apply eq_ci_nil_r in EX. subst x.
     destruct a' as [|y a'']; cbn [labels_eq_sli sli_next] in HE; [|discriminate].
     exists []. split; reflexivity.
-  - assert (SN : sli_next m (Some (p, sseg)) = SliLabel l (Some (p + mlen l + 1, sseg))).
+  - assert (SN : sli_next m (mlen m) (Some (p, sseg)) = SliLabel l (Some (p + mlen l + 1, sseg))).
     { unfold sli_next. pose proof Hb as Hb0. apply bytes_at_cons in Hb0 as [Hg _]. pose proof (get_some_lt _ _ _ Hg) as X.
       destruct (N.leb_spec (PName.mlen m) p); [lia|]. apply sli_loop_label; auto. }
     destruct a as [|x a']; cbn [labels_eq_sli] in HE; rewrite SN in HE; [discriminate|].
@@ -57,7 +57,7 @@ Proof.
     replace (p + mlen l + 1) with (p + 1 + mlen l) in HE by lia.
     destruct (IH sseg a' Hss HE) as (q' & -> & Hc). exists (x :: q'). split; [reflexivity|].
     unfold canon in *. cbn [map]. f_equal; [apply label_eq_spec; exact EX|exact Hc].
-  - assert (SN : sli_next m (Some (p, sseg)) = SliLabel l (Some (q + mlen l + 1, q))).
+  - assert (SN : sli_next m (mlen m) (Some (p, sseg)) = SliLabel l (Some (q + mlen l + 1, q))).
     { unfold sli_next. pose proof (get_some_lt _ _ _ Hg0) as X.
       destruct (N.leb_spec (PName.mlen m) p); [lia|].
       destruct (N.to_nat sseg) as [|f] eqn:EF; [lia|].
@@ -78,11 +78,11 @@ Definition Pending (m : bytes) (v : N) : Prop :=
 
 Lemma sli_pending m : forall labs v sseg q,
   Forall valid_label labs -> bytes_at m v (wire_rel labs) -> v + mlen (wire_rel labs) = mlen m ->
-  labels_eq_sli (q ++ [[]]) m (Some (v, sseg)) = Some false.
+  labels_eq_sli (q ++ [[]]) m (mlen m) (Some (v, sseg)) = Some false.
 Proof.
   induction labs as [|l labs IH]; intros v sseg q Hv Hb He.
   - change (mlen (wire_rel [])) with 0 in He.
-    assert (SN : sli_next m (Some (v, sseg)) = SliEnd).
+    assert (SN : sli_next m (mlen m) (Some (v, sseg)) = SliEnd).
     { unfold sli_next. destruct (N.leb_spec (PName.mlen m) v); [reflexivity|]. unfold PName.mlen, mlen in *. lia. }
     destruct q as [|x q']; cbn [app labels_eq_sli]; rewrite SN; reflexivity.
   - inversion Hv as [|? ? Hl Hv']; subst.
@@ -90,7 +90,7 @@ Proof.
     unfold wire_rel in Hb. cbn [map concat] in Hb. fold (wire_rel labs) in Hb.
     apply bytes_at_split in Hb as [Hb1 Hb2]. change (wire_label l) with (mlen l :: l) in Hb1.
     replace (mlen (wire_label l)) with (1 + mlen l) in Hb2 by (unfold wire_label; rewrite mlen_cons; reflexivity).
-    assert (SN : sli_next m (Some (v, sseg)) = SliLabel l (Some (v + mlen l + 1, sseg))).
+    assert (SN : sli_next m (mlen m) (Some (v, sseg)) = SliLabel l (Some (v + mlen l + 1, sseg))).
     { unfold sli_next. destruct (N.leb_spec (PName.mlen m) v); [unfold PName.mlen, mlen in *; lia|].
       apply sli_loop_label; auto. }
     destruct q as [|x q']; cbn [app labels_eq_sli]; rewrite SN.
@@ -101,12 +101,12 @@ Proof.
       * lia.
 Qed.
 
-Lemma static_get_some m es q pos :
-  static_get m es q = Some (Some pos) ->
-  In pos es /\ labels_eq_sli (q ++ [[]]) m (Some (pos, pos)) = Some true.
+Lemma static_get_some m ml es q pos :
+  static_get m ml es q = Some (Some pos) ->
+  In pos es /\ labels_eq_sli (q ++ [[]]) m ml (Some (pos, pos)) = Some true.
 Proof.
   induction es as [|e es IH]; cbn [static_get]; [discriminate|].
-  destruct (labels_eq_sli (q ++ [[]]) m (Some (e, e))) as [[|]|] eqn:E; intros H; try discriminate.
+  destruct (labels_eq_sli (q ++ [[]]) m ml (Some (e, e))) as [[|]|] eqn:E; intros H; try discriminate.
   - injection H as <-. split; [left; reflexivity|exact E].
   - destruct (IH H) as [A B]. split; [right; exact A|exact B].
 Qed.
@@ -148,7 +148,7 @@ Proof.
       cbn [wire_rel map concat app] in X. apply X; [intros; apply Ho; lia|lia].
     + intros v Hin. left. rewrite a1 in Hin. exact Hin.
   - inversion Hv as [|? ? Hl Hv']; subst.
-    destruct (static_get (w_buf w) (w_static w) (l :: rest)) as [[pos|]|] eqn:EG; [| |discriminate].
+    destruct (static_get (w_buf w) (mlen (w_buf w)) (w_static w) (l :: rest)) as [[pos|]|] eqn:EG; [| |discriminate].
     + apply static_get_some in EG as [Hin HE].
       assert (Hlt : pos < b0).
       { destruct (N.lt_ge_cases pos b0) as [L|L]; [exact L|].
